@@ -84,7 +84,7 @@ def run(ctx):
         silent = byz if sc.get("byz_mode", "silent") == "silent" else []
         consts = (f"  Crashed = {{{', '.join(map(str, crashed))}}}\n"
                   f"  SilentByz = {{{', '.join(map(str, silent))}}}\n"
-                  f"  StableFrom = {sc['gst'] + sc['chaos'] + 1000}\n  EndT = {sc['run_ms']}\n  Margin = 3500\n")
+                  f"  StableFrom = {sc['gst'] + sc['chaos'] + 1000}\n  EndT = {sc['run_ms']}\n  Margin = 3500\n  RequireFast = TRUE\n")
         cfg_extra = consts
         # vacuity: some window must be judged
         import re
